@@ -219,7 +219,35 @@ def _screen_render(base, local, remote, merged, decisions, exc):
     return None
 
 
-SCREENS = {"raises": _screen_raises, "invalid": _screen_invalid, "render": _screen_render}
+def _screen_embedded(base, local, remote, merged, decisions, exc):
+    """C11: a cheap look at the diffs embedded in the decisions - a nested patch without entries, entries of a sequence
+    diff out of order (the full well-formedness is the specification's business)"""
+    if exc is not None or decisions is None:
+        return None
+
+    def bad(d):
+        if not d:
+            return None
+        keys = [e.key for e in d if isinstance(e.key, int)]
+        if keys != sorted(keys):
+            return "embedded:unordered"
+        for e in d:
+            if e.op == "patch":
+                if not e.diff:
+                    return "embedded:empty-patch"
+                r = bad(e.diff)
+                if r:
+                    return r
+        return None
+    for dec in decisions:
+        for k in ("local_diff", "remote_diff", "custom_diff"):
+            r = bad(dec.get(k))
+            if r:
+                return r
+    return None
+
+
+SCREENS = {"raises": _screen_raises, "invalid": _screen_invalid, "render": _screen_render, "embedded": _screen_embedded}
 
 
 def _relabel(decisions, side, only_conflicts=False):
